@@ -31,6 +31,9 @@ checks = {
  "C18": ("fault_enumeration", "6/C18",
          "Seeded simulation of every client operation (18 Interface methods, BlobWriter write/close/commit sequences, both resume modes) against a scripted adversarial peer on the simulated network: a finite script of responses sampled from {status classes incl. redirects and out-of-range codes} x {Location, Range, Content-Range, Docker-Content-Digest, Link, Content-Type, OCI-Chunk-Min-Length, Www-Authenticate each absent / empty / malformed / contradictory / huge} x {body empty / error JSON / right-shaped / wrong-shaped / truncated / garbage / oversized} x {framing: exact, chunked, short, cut, huge Content-Length}, with ListPageSize in {-1,0,1,2,5}; when the script runs out the network fails. Oracle: the operation returns (no panic) and issues no more requests than the script can answer plus one.",
          "deterministic simulation with response fault injection from a scripted adversarial peer; no-panic and bounded-progress oracles; choice-trace replay and minimisation"),
+ "C08": ("exploration", "4.3, 4.8, 6/C08",
+         "Seeded schedule exploration of 2-16 simulated tasks running pre-generated programs (pushes, manifest pushes with tag moves, deletes, mounts, reads, listings, writes/commits on one shared upload session) over a tiny shared key space against one ocimem, directly and through per-task ociclients into one shared ociserver. The simulator picks the next task at every mutex acquisition of the (mechanically rewritten) library and at every network boundary. Engine A (synctest bubble): every recorded history is checked for linearizability against the reference registry with porcupine, plus directed families (never-dangling tag; commit racing with writes). Engine B: the same scenarios under the Go race detector with raw-pipe task hand-off, so that accesses of strictly serialised tasks are still unordered for the detector.",
+         "deterministic simulation: seeded scheduler over instrumented lock sites (testing/synctest), porcupine linearizability against refreg, and the race detector under a controlled serial schedule; choice-trace replay and minimisation"),
 }
 
 na = [
@@ -57,6 +60,8 @@ m = {
   "add_only": True,
  },
  "engines": [
+  {"name": "sim-B", "path": "sim/", "serves_properties": ["C08", "C14"],
+   "kind_free_text": "the same simulator built with the default toolchain and -race: tasks are handed the processor through raw pipe reads/writes in go:norace functions, so the happens-before race detector still sees unsynchronised accesses of serialised tasks"},
   {"name": "sim-A", "path": "sim/", "serves_properties": sorted(claimed),
    "kind_free_text": "deterministic simulator: seeded choice trace, simulated network (simnet), reference model (refreg), testing/synctest bubble scheduler over a mechanically instrumented scratch copy (go1.26.8)"},
  ],
